@@ -8,6 +8,9 @@
 // operation at a time under a generated schedule, and the recorded results plus
 // the final contents must be explained by some sequential order of the operations
 // on a small reference model (exhaustive search). Deadlock and panics are violations.
+// "lockorder" (lockorder_test.go): the same scheduler and oracle over programs on the chain
+// parent - shared scope - module, with String of scopes that bind a module against
+// operations that walk up through the module (the deadlock clause over several scopes).
 // (b) "race": the same programs under real goroutines and real locks in a child
 // process of this -race binary; oracle = race detector (plus the same
 // sequential-consistency search on the schedules the runtime happens to produce).
@@ -169,6 +172,9 @@ func TestC13(t *testing.T) {
 	}
 	c.Extra("c13_a_scheduling_decisions", decisions)
 	c.Extra("c13_a_preemptions", preempts)
+
+	// ---------- lock order over a chain of scopes (scheduler only; lockorder_test.go) ----------
+	runLockOrder(c, withString)
 
 	// ---------- (b) ----------
 	rr := &raceRunner{}
